@@ -348,6 +348,12 @@ def run(ctx):
                 dr.op('seek', rng.randint(1, len(lens)))
             elif abstract_told(dr.ev):
                 dr.op(rng.choice(['tell', 'tell', 'seekcur']))
+        # a reader that has run into the end of the file still knows where its last record started: ask, go back, read it again
+        if dr.fr.isEOF and abstract_told(dr.ev) and not any(e['op'] == 'exception' for e in dr.ev):
+            dr.op('tell')
+            dr.op('seekcur')
+            dr.op('read', -1)
+            dr.op('tell')
         if tif == 'le' and rng.random() < 0.5:
             out = io.BytesIO()
             try:
@@ -468,6 +474,10 @@ def run(ctx):
             for k in range(len(lens)):
                 dr.op('read', -1)
             dr.op('read', -1)
+            if dr.fr.isEOF:
+                dr.op('tell')
+                dr.op('seekcur')
+                dr.op('read', -1)
             add('read', [dict(op='pr', **p) for p in layout] + [dict(op='endlayout', size=len(data))] + dr.ev,
                 lens, tif, None, dict(m, readback=True))
         except Exception as e:
